@@ -168,6 +168,8 @@ def scenario(draw):
         "shifts": [draw(st.sampled_from([None, [0.05, 0.0, 0.0], [0.0, -0.03, 0.02]])) for _ in range(3)],
         # the shipped cell entry uses either a random strain or an exactly volume-preserving simple shear
         "cell_op": draw(st.sampled_from(["aniso", "shear"])),
+        # one more table entry: two bare user moves inside the package's plain CompositeMove, with a bare criteria
+        "wrapped": draw(st.booleans()),
     }
     if driver in ("Isobaric", "Isotension", "GrandCanonical") and draw(st.integers(0, 5)) > 0:
         scn["shipped"] = True
@@ -218,6 +220,14 @@ class C20Machine(M.HistoryMachine):
                 _st(mv)["shift"] = None if scn["shifts"][i] is None or d == "MonteCarlo" else np.array(scn["shifts"][i])
                 self.guarded("add_move", self.mc.add_move, mv, criteria=cr, name=f"u{i}")
                 self.users.append((mv, cr))
+            self.wrapped = None
+            if scn.get("wrapped"):
+                from quansino.moves.composite import CompositeMove
+
+                wa, wb, wc = BareMove(payload=30), BareMove(payload=31), BareCriteria(payload=41)
+                self.guarded("add_move", self.mc.add_move, CompositeMove([wa, wb]), criteria=wc, name="w")
+                self.wrapped = (wa, wb, wc)
+                self.labels.add("bare-moves-in-plain-composite")
             self.shipped = None
             if scn["shipped"]:
                 sc = M.ScriptedCriteria()
@@ -249,8 +259,11 @@ class C20Machine(M.HistoryMachine):
             self.mc.moves[nm].probability = 1.0 if nm == name else 0.0
 
     def _check_surface(self, where):
-        for i, (mv, cr) in enumerate(self.users):
-            for obj, tag in ((mv, f"user move u{i}"), (cr, f"user criteria of u{i}")):
+        objs = [(mv, f"user move u{i}") for i, (mv, _c) in enumerate(self.users)] + [(cr, f"user criteria of u{i}") for i, (_m, cr) in enumerate(self.users)]
+        if getattr(self, "wrapped", None):
+            objs += [(self.wrapped[0], "user move w[0]"), (self.wrapped[1], "user move w[1]"), (self.wrapped[2], "user criteria of w")]
+        for obj, tag in objs:
+            for _once in (0,):
                 s = _st(obj)
                 bad = [a for a in s["access"] if a not in PROTOCOL and not (a.startswith("__") and a.endswith("__"))]
                 if bad:
@@ -299,17 +312,20 @@ class C20Machine(M.HistoryMachine):
         if verdict is not True and (added or removed or cell_changed):
             # C03's subject; here it only matters that no notification follows
             pass
-        for i, (mv, _cr) in enumerate(self.users):
+        notified = [(f"u{i}", mv) for i, (mv, _cr) in enumerate(self.users)]
+        if getattr(self, "wrapped", None):
+            notified += [("w[0]", self.wrapped[0]), ("w[1]", self.wrapped[1])]
+        for i, mv in notified:
             s = _st(mv)
             a0, c0 = getattr(self, "replaced", {}).get(id(mv), (0, 0))
             got = [n for n in s["atoms_notes"] if n[0] or n[1]]
             if got != self.expected_atoms_notes[a0:]:
-                self.fail("atom-notification", f"{where}: user move u{i} received non-empty on_atoms_changed calls {got} but the accepted exchange trials were {self.expected_atoms_notes} ({self.scn['driver']})")
+                self.fail("atom-notification", f"{where}: user move {i} received non-empty on_atoms_changed calls {got} but the accepted exchange trials were {self.expected_atoms_notes} ({self.scn['driver']})")
                 return
             gotc = s["cell_notes"]
             exp = self.expected_cell_notes[c0:]
             if len(gotc) != len(exp) or any(not np.array_equal(a, b) for a, b in zip(gotc, exp)):
-                self.fail("cell-notification", f"{where}: user move u{i} received {len(gotc)} on_cell_changed calls but {len(exp)} cell changes were accepted ({self.scn['driver']})")
+                self.fail("cell-notification", f"{where}: user move {i} received {len(gotc)} on_cell_changed calls but {len(exp)} cell changes were accepted ({self.scn['driver']})")
                 return
         self._check_surface(where)
 
@@ -357,6 +373,43 @@ class C20Machine(M.HistoryMachine):
                 self.fail("history-falsy-not-none", f"{where}: falsy move result must be recorded as not attempted (None), history has {got!r}")
                 return
         self.verdicts += {True: "A", False: "R", None: "F"}.get(got, "?")
+        self._after_any_trial(where, got, added, removed, cell_changed)
+
+    @rule(ra=st.integers(0, len(RESULTS) - 1), rb=st.integers(0, len(RESULTS) - 1), verdict=st.booleans())
+    def wrapped_trial(self, ra, rb, verdict):
+        """Trial of the entry holding two bare moves in a plain CompositeMove: each is executed exactly once; the trial
+        reaches the criteria exactly when one of them returned something truthy."""
+        if self.dead or self.mc is None or not getattr(self, "wrapped", None):
+            return
+        self.log.append({"rule": "wrapped_trial", "args": {"ra": ra, "rb": rb, "verdict": verdict}})
+        wa, wb, wc = self.wrapped
+        _st(wa)["results"], _st(wb)["results"] = [RESULTS[ra]], [RESULTS[rb]]
+        _st(wc)["verdicts"] = [verdict]
+        c0 = (_st(wa)["calls"], _st(wb)["calls"], _st(wc)["calls"])
+        try:
+            got, added, removed, cell_changed = self._step("w")
+        except M.Stop:
+            return
+        where = f"trial of CompositeMove([bare, bare]) results=({RESULTS[ra]!r}, {RESULTS[rb]!r}) verdict={verdict}"
+        n_a, n_b, n_c = _st(wa)["calls"] - c0[0], _st(wb)["calls"] - c0[1], _st(wc)["calls"] - c0[2]
+        if (n_a, n_b) != (1, 1):
+            self.fail("wrapped-move-call-count", f"{where}: the two user moves were executed ({n_a}, {n_b}) times in one trial")
+            return
+        anyt = bool(RESULTS[ra]) or bool(RESULTS[rb])
+        if anyt:
+            self.truthy += 1
+        else:
+            self.falsy += 1
+        if n_c != (1 if anyt else 0):
+            self.fail("criteria-not-consulted" if anyt else "criteria-consulted-on-falsy", f"{where}: the criteria was consulted {n_c} times")
+            return
+        if anyt and got is not verdict and got != verdict:
+            self.fail("history-verdict", f"{where}: move_history recorded {got!r}")
+            return
+        if not anyt and got is not None:
+            self.fail("history-falsy-not-none", f"{where}: no truthy result, history has {got!r}")
+            return
+        self.verdicts += {True: "W", False: "w", None: "-"}.get(got, "?")
         self._after_any_trial(where, got, added, removed, cell_changed)
 
     @rule(i=st.integers(0, 2), via=st.sampled_from(["add_move", "storage"]))
@@ -422,6 +475,12 @@ class C20Machine(M.HistoryMachine):
                 if st2 is None or type(st2.move) is not BareMove or type(st2.criteria) is not BareCriteria \
                         or _st(st2.move)["payload"] != i + 10 or _st(st2.criteria)["payload"] != i + 20:
                     self.fail("serialisation-rebuild", f"{type(self.mc).__name__}.from_dict did not rebuild user entry u{i}")
+                    raise M.Stop()
+            if getattr(self, "wrapped", None):
+                w2 = mc2.moves.get("w")
+                inner = list(getattr(getattr(w2, "move", None), "moves", []) or [])
+                if [type(x) for x in inner] != [BareMove, BareMove] or [_st(x)["payload"] for x in inner] != [30, 31] or type(w2.criteria) is not BareCriteria:
+                    self.fail("serialisation-rebuild", f"{type(self.mc).__name__}.from_dict did not rebuild the user moves inside the plain composite entry")
                     raise M.Stop()
             mc2.close()
 
